@@ -99,15 +99,20 @@ type caseC10 struct {
 	Body json.RawMessage `json:"body"`
 	// ValidBody marks hand-written bodies whose only reason to fail can be the signer.
 	ValidBody bool `json:"valid_body"`
+	// Effective marks bodies that take effect in the prepared state but whose meaning for the
+	// authority is a don't-care (empty batches).
+	Effective bool `json:"effective,omitempty"`
 }
 
 // validBodies are hand-written valid bodies of the known messages (proto JSON without signer).
 func validBodies(w *world.World) map[string][]string {
 	return map[string][]string{
-		"noble.orbiter.component.forwarder.v1.MsgPauseProtocol":         {`{"protocol_id":"PROTOCOL_CCTP"}`, `{"protocol_id":"PROTOCOL_INTERNAL"}`},
-		"noble.orbiter.component.forwarder.v1.MsgUnpauseProtocol":       {`{"protocol_id":"PROTOCOL_HYPERLANE"}`},
-		"noble.orbiter.component.forwarder.v1.MsgPauseCrossChains":      {`{"protocol_id":"PROTOCOL_CCTP","counterparty_ids":["0","3"]}`},
-		"noble.orbiter.component.forwarder.v1.MsgUnpauseCrossChains":    {`{"protocol_id":"PROTOCOL_CCTP","counterparty_ids":["5"]}`},
+		"noble.orbiter.component.forwarder.v1.MsgPauseProtocol":   {`{"protocol_id":"PROTOCOL_CCTP"}`, `{"protocol_id":"PROTOCOL_IBC"}`},
+		"noble.orbiter.component.forwarder.v1.MsgUnpauseProtocol": {`{"protocol_id":"PROTOCOL_HYPERLANE"}`, `{"protocol_id":"PROTOCOL_INTERNAL"}`},
+		"noble.orbiter.component.forwarder.v1.MsgPauseCrossChains": {`{"protocol_id":"PROTOCOL_CCTP","counterparty_ids":["0","3"]}`,
+			`{"protocol_id":"PROTOCOL_HYPERLANE","counterparty_ids":["1"]}`},
+		"noble.orbiter.component.forwarder.v1.MsgUnpauseCrossChains": {`{"protocol_id":"PROTOCOL_CCTP","counterparty_ids":["5"]}`,
+			`{"protocol_id":"PROTOCOL_HYPERLANE","counterparty_ids":["7"]}`},
 		"noble.orbiter.component.forwarder.v1.MsgReplaceDepositForBurn": {},
 		"noble.orbiter.component.executor.v1.MsgPauseAction":            {`{"action_id":"ACTION_FEE"}`},
 		"noble.orbiter.component.executor.v1.MsgUnpauseAction":          {`{"action_id":"ACTION_SWAP"}`},
@@ -115,13 +120,27 @@ func validBodies(w *world.World) map[string][]string {
 	}
 }
 
-// c10State is a branch in which every valid body above can succeed: HYPERLANE and (CCTP,5) and
-// ACTION_SWAP are paused, so that the unpause messages have something to unpause.
+// effectiveBodies are bodies that DO change state when the authority sends them in c10State but
+// whose meaning the statements leave open (an empty counterparty batch acts on the whole
+// protocol): for a foreign signer they must fail like any other, for the authority they are a
+// don't-care.
+func effectiveBodies() map[string][]string {
+	return map[string][]string{
+		"noble.orbiter.component.forwarder.v1.MsgPauseCrossChains":   {`{"protocol_id":"PROTOCOL_CCTP","counterparty_ids":[]}`, `{"protocol_id":"PROTOCOL_IBC"}`},
+		"noble.orbiter.component.forwarder.v1.MsgUnpauseCrossChains": {`{"protocol_id":"PROTOCOL_HYPERLANE","counterparty_ids":[]}`, `{"protocol_id":"PROTOCOL_INTERNAL"}`},
+	}
+}
+
+// c10State is a branch in which every body above can take effect: HYPERLANE and INTERNAL are
+// paused as a whole, (CCTP,5), (HYPERLANE,7) and ACTION_SWAP are paused, so that unpause messages
+// have something to unpause while the pause messages still have something to pause.
 func c10State(w *world.World) sdk.Context {
 	ctx := w.Branch()
 	for _, a := range []kit.Admin{
 		{Kind: "pause_protocol", Protocol: "PROTOCOL_HYPERLANE"},
+		{Kind: "pause_protocol", Protocol: "PROTOCOL_INTERNAL"},
 		{Kind: "pause_cc", Protocol: "PROTOCOL_CCTP", Ids: []string{"5"}},
+		{Kind: "pause_cc", Protocol: "PROTOCOL_HYPERLANE", Ids: []string{"7"}},
 		{Kind: "pause_action", Action: "ACTION_SWAP"},
 	} {
 		msg, _ := kit.BuildAdmin(a)
@@ -196,9 +215,12 @@ func runC10(w *world.World, c caseC10, rec *kit.Recorder) error {
 		return nil
 	}
 	rec.Label("cell", info.Method+" x "+class)
-	if c.ValidBody {
+	if c.ValidBody || c.Effective {
 		rec.NonTrivial(info.Method + "|" + c.Signer + "|" + string(c.Body))
 		rec.Sample(info.Method, c)
+	}
+	if c.Effective {
+		rec.Label("c10", "foreign signer with an empty-batch body that would take effect")
 	}
 	if res.Panic != nil {
 		return fmt.Errorf("%s with signer %q panicked: %v", info.Method, c.Signer, res.Panic)
@@ -287,7 +309,7 @@ func fill(t *rapid.T, v reflect.Value, depth int) {
 		label := fmt.Sprintf("fill/%d/%s", depth, v.Type().Field(i).Name)
 		switch f.Kind() {
 		case reflect.String:
-			f.SetString(pick(t, label, []string{"", "PROTOCOL_CCTP", "ACTION_FEE", "x", "5", "PROTOCOL_INTERNAL"}))
+			f.SetString(pick(t, label, []string{"", "PROTOCOL_CCTP", "PROTOCOL_HYPERLANE", "PROTOCOL_INTERNAL", "PROTOCOL_IBC", "ACTION_FEE", "ACTION_SWAP", "x", "5"}))
 		case reflect.Uint32, reflect.Uint64:
 			f.SetUint(uint64(rapid.IntRange(0, 100).Draw(t, label)))
 		case reflect.Int32, reflect.Int64:
@@ -297,7 +319,7 @@ func fill(t *rapid.T, v reflect.Value, depth int) {
 			case reflect.Uint8:
 				f.SetBytes(rapid.SliceOfN(rapid.Byte(), 0, 40).Draw(t, label))
 			case reflect.String:
-				f.Set(reflect.ValueOf(rapid.SliceOfN(rapid.SampledFrom([]string{"0", "1", "5", "x"}), 0, 3).Draw(t, label)))
+				f.Set(reflect.ValueOf(rapid.SliceOfN(rapid.SampledFrom([]string{"0", "1", "5", "7", "x"}), 0, 3).Draw(t, label)))
 			}
 		case reflect.Struct:
 			fill(t, f, depth+1)
@@ -330,8 +352,10 @@ func TestC10Authority(t *testing.T) {
 	rapid.Check(t, func(rt *rapid.T) {
 		r := pick(rt, "rpc", rpcs)
 		c := caseC10{Input: r.Input}
-		if vb := bodies[r.Input]; len(vb) > 0 && kit.Chance(rt, "valid-body", 60) {
+		if vb := bodies[r.Input]; len(vb) > 0 && kit.Chance(rt, "valid-body", 55) {
 			c.Body, c.ValidBody = json.RawMessage(pick(rt, "body", vb)), true
+		} else if eb := effectiveBodies()[r.Input]; len(eb) > 0 && kit.Chance(rt, "effective-body", 40) {
+			c.Body, c.Effective = json.RawMessage(pick(rt, "ebody", eb)), true
 		} else {
 			c.Body = randomBody(rt, w, r.Input)
 		}
